@@ -18,6 +18,8 @@ import (
 	"math/big"
 	"net"
 	"net/http"
+	"os"
+	"path/filepath"
 	"strings"
 	"sync"
 	"time"
@@ -37,6 +39,7 @@ type ca struct {
 }
 
 type pki struct {
+	caFile     map[int]string // PEM file of each CA (SetRootCertsFromFile)
 	cas        map[int]*ca
 	serverCert tls.Certificate         // issued by CA 1, names: localhost, c12.test, 127.0.0.1
 	nameCert   tls.Certificate         // issued by CA 1, names: localhost, c12.test only (no IP SAN)
@@ -108,15 +111,22 @@ func (c *ca) issue(cn string, server bool, noIP ...bool) (tls.Certificate, error
 }
 
 func newPKI() (*pki, error) {
-	p := &pki{cas: map[int]*ca{}, clientCert: map[int]tls.Certificate{}}
+	p := &pki{cas: map[int]*ca{}, clientCert: map[int]tls.Certificate{}, caFile: map[int]string{}}
+	dir, err := os.MkdirTemp("", "c12-pki-")
+	if err != nil {
+		return nil, err
+	}
 	for id := 1; id <= 3; id++ {
 		c, err := newCA(id)
 		if err != nil {
 			return nil, err
 		}
+		p.caFile[id] = filepath.Join(dir, fmt.Sprintf("ca%d.pem", id))
+		if err := os.WriteFile(p.caFile[id], []byte(c.pem), 0o600); err != nil {
+			return nil, err
+		}
 		p.cas[id] = c
 	}
-	var err error
 	if p.serverCert, err = p.cas[1].issue("c12 origin", true); err != nil {
 		return nil, err
 	}
